@@ -4,7 +4,7 @@
 # of /repo (never /repo itself). Prints one line per change; exit 1 if any is not detected.
 cd "$(dirname "$0")/.."
 W=${1:-4}
-ls -d seeded/*/ mutants/*.patch 2>/dev/null | awk -v w=$W '{print NR % w, $0}' > /tmp/regress-list.txt
+ls -d seeded/*/ mutants/*.patch 2>/dev/null | grep -E "${REGRESS_FILTER:-.}" | awk -v w=$W '{print NR % w, $0}' > /tmp/regress-list.txt
 for k in $(seq 0 $((W-1))); do
   (
     wt=/tmp/wt-regress-$k
